@@ -21,6 +21,8 @@ func GenTLS(rng *rand.Rand, thorough bool, emit func(*Sx)) {
 		{"rcpt", []string{"EHLO p.example", "MAIL FROM:<plain@x>", "RCPT TO:<plainr@x>"}, []int{250, 250, 250}},
 		{"bdat", []string{"EHLO p.example", "MAIL FROM:<plain@x>", "RCPT TO:<plainr@x>", "BDAT 3\r\nabc"}, []int{250, 250, 250, 250}},
 		{"authed", []string{"EHLO p.example", "AUTH PLAIN AGEAYg=="}, []int{250, 235}},
+		// a complete DATA transaction in the clear: whatever was set up for it must not be reused inside TLS
+		{"data-done", []string{"EHLO p.example", "MAIL FROM:<plain@x>", "RCPT TO:<plainr@x>", "DATA\r\nplaintext message\r\n.\r\n"}, []int{250, 250, 250, 354}},
 		{"none", nil, nil},
 	}
 	type inj struct {
@@ -57,6 +59,9 @@ func GenTLS(rng *rand.Rand, thorough bool, emit func(*Sx)) {
 						if l == "BDAT 3\r\nabc" {
 							f.raw(l)
 							f.expect(h.codes[i])
+						} else if strings.HasPrefix(l, "DATA\r\n") {
+							f.raw(l)
+							f.expect(h.codes[i], 250)
 						} else {
 							f.cmd(l, h.codes[i])
 						}
@@ -117,12 +122,17 @@ func GenTLS(rng *rand.Rand, thorough bool, emit func(*Sx)) {
 					g.cmd("RCPT TO:<r2@x>", 502)
 					g.cmd("BDAT 0 LAST", 502)
 					g.cmd("MAIL FROM:<intls@x>", 250)
+					g.cmd("RCPT TO:<rtls@x>", 250)
+					g.cmd("DATA", 354)
+					g.raw("..inside tls\r\nsecond line\r\n.\r\n")
+					g.expect(250)
 					g.cmd("AUTH PLAIN AGEAYg==", 235)
 					g.cmd("AUTH PLAIN AGEAYg==", 503)
 					g.cmd("STARTTLS", 502)
 					g.cmd("QUIT", 221)
 					f.expect(g.codes...)
 					f.add(L(A("must-mail"), XS("intls@x")))
+					f.add(L(A("expect-last-data"), XS(".inside tls\r\nsecond line\r\n"), A("eof")))
 					f.add(L(A("must-not-mail"), XS("early@x")))
 					f.add(L(A("must-not-mail"), XS("r2@x")))
 					tlsRaws := segStream(rng, g.out, nil, []int{1, 3, 0}[seg], rawEOF)
